@@ -848,7 +848,7 @@ func (c *Client) peekPacket() (head byte, err error) {
 			}
 		}
 
-		lastN := len(c.peek)
+		lastN := c.bufr.Buffered()
 		c.peek, err = c.bufr.Peek(size)
 		switch {
 		case err == nil: // OK
@@ -859,7 +859,7 @@ func (c *Client) peekPacket() (head byte, err error) {
 
 		// Allow deadline expiry if at least one byte was transferred.
 		var ne net.Error
-		if len(c.peek) > lastN && errors.As(err, &ne) && ne.Timeout() {
+		if c.bufr.Buffered() > lastN && errors.As(err, &ne) && ne.Timeout() {
 			continue
 		}
 
